@@ -303,3 +303,22 @@ def deleteJournalAt (recheck : Bool) (users : Nat) (now : List Chunk) : Bool :=
   users == 0 && (!recheck || psize now == 0)
 
 end Logrange.Truncate
+
+/-! ## TRUNCATE of one partition while a writer appends
+
+`truncate` chooses on its snapshot `snap` of the chunk list; by the time `DeleteChunks` runs the journal is `now`:
+a writer appends only to the last chunk or opens new chunks with greater ids, so the chunks of the snapshot are still
+there, in front, the non-last ones unchanged, the last one possibly grown, new ones behind (`GrownFrom`). -/
+namespace Logrange.Truncate
+
+inductive GrownFrom : List Chunk → List Chunk → Prop
+  | nil (extra : List Chunk) : GrownFrom [] extra
+  | cons (c c' : Chunk) (rest now' : List Chunk) : c'.id = c.id → c.size ≤ c'.size → (rest ≠ [] → c' = c) →
+      GrownFrom rest now' → GrownFrom (c :: rest) (c' :: now')
+
+/-- the partition's chunks after `truncate` decided on `snap` and `DeleteChunks` ran on the journal as it is `now` -/
+def truncateAt (strict : Bool) (p : Params) (snap now : List Chunk) : List Chunk :=
+  let ch := choose strict p snap
+  if ch.n = 0 ∨ p.dryRun = true then now else deleteUpTo (snap.getD (ch.n - 1) default).id now
+
+end Logrange.Truncate
